@@ -3,7 +3,7 @@
 
 use crate::{
     net::now_us,
-    scenario::{payload_key, ConnScript, ReaderScript, Side, StreamScript, WEnd, WStep, WriterScript},
+    scenario::{payload_key, ConnScript, DgramStep, ReaderScript, Side, StreamScript, WEnd, WStep, WriterScript},
 };
 use bytes::Bytes;
 use s2n_quic::{
@@ -79,6 +79,7 @@ pub struct AppState {
     pub handles: Vec<Option<Handle>>,
     /// endpoints kept alive until the end of the run
     pub keep: Vec<Box<dyn std::any::Any + Send>>,
+    pub datagrams_sent: usize,
 }
 
 #[derive(Clone, Default)]
@@ -306,6 +307,30 @@ pub fn drive_connection(app: App, client: usize, side: Side, script: ConnScript,
         a.handles[client] = Some(handle.clone());
     }
     let ids = script.ids();
+    // unreliable datagrams
+    {
+        let mut steps: Vec<DgramStep> = script.datagrams.iter().copied().filter(|d| d.side == side).collect();
+        steps.sort_by_key(|d| d.at_us);
+        if !steps.is_empty() {
+            let handle = handle.clone();
+            let app = app.clone();
+            spawn(async move {
+                let mut at = 0u32;
+                for (k, d) in steps.iter().enumerate() {
+                    if d.at_us > at {
+                        sleep_us(d.at_us - at).await;
+                        at = d.at_us;
+                    }
+                    let data = bytes::Bytes::from(vcore::gen::prf_vec(0xd6 ^ k as u64, 0, d.len as usize));
+                    // (an over-long datagram or a closed connection is refused by the sender: not this harness's concern)
+                    let sent = handle.datagram_mut(|s: &mut s2n_quic::provider::datagram::default::Sender| s.send_datagram(data).is_ok());
+                    if matches!(sent, Ok(true)) {
+                        app.borrow_mut().datagrams_sent += 1;
+                    }
+                }
+            });
+        }
+    }
     // opener
     {
         let app = app.clone();
